@@ -5,7 +5,7 @@
 (* A data argument is a value matrix (abstract) in some REPRESENTATION:   *)
 (*   container : "ndarray2d" | "ndarray1d" (p = 1) | "series" (p = 1) |   *)
 (*               "frame"                                                   *)
-(*   dtype     : "float64" | "int64"                                       *)
+(*   dtype     : "float64" | "int64" | "int32" | "int16" | "int8"          *)
 (*   index     : "range0" | "offset" | "step" | "datetime" | "period"     *)
 (*               (pandas containers only; arrays have no index)           *)
 (*   columns   : "default" | "strings"  (frames only)                      *)
@@ -29,7 +29,8 @@ EXTENDS Common, TLC, Json
 CONSTANTS N, Conv, Emit
 
 Containers == {"ndarray2d", "ndarray1d", "series", "frame"}
-Dtypes     == {"float64", "int64"}
+Dtypes     == {"float64", "int64", "int32", "int16", "int8"}
+Narrow     == {"int32", "int16", "int8"}      \* squares of moderate values do not fit the dtype itself
 Indexes    == {"range0", "offset", "step", "datetime", "period"}
 Columns    == {"default", "strings"}
 Detectors  == {"PELT", "MovingWindow", "SeededBinarySegmentation", "CAPA", "MVCAPA", "CircularBinarySegmentation",
@@ -52,7 +53,8 @@ Init ==
     /\ (cont \in {"ndarray1d", "series"} => p = 1)
     /\ (det = "StatThresholdAnomaliser" => p = 1)                 \* univariate by its own tag
     /\ (~HasIndex(cont) => idx = "range0") /\ (cont # "frame" => cols = "default")
-    /\ (dtype = "int64" => ~halves)                               \* the same values must be representable
+    /\ (dtype # "float64" => ~halves)                             \* the same values must be representable
+    /\ (dtype \in Narrow => idx \in {"range0", "datetime"} /\ cols = "default")   \* the width of the integers is orthogonal to labels
     /\ seen = <<>> /\ outIndex = <<>> /\ pc = "call"
 
 \* what the algorithm sees after the conversions, and the index a dense output gets
